@@ -318,9 +318,11 @@ def number_wildcards(t, nvars, counter):
 
 
 def gen_alt(rng, spec, nvars, wild):
-    """alternatives of the kinds in C06: concrete, F(b), G(b, _), G(_, b), nested"""
+    """alternatives of the kinds in C06: concrete, F(b), G(b, _), G(_, b), nested; sometimes a bare variable"""
     comps = [c for c in spec.compounds(builtin=False)]
     r = rng.random()
+    if r < 0.07:
+        return ('v', rng.randrange(nvars))          # a bare variable as an alternative: x << [A, y]
     if r < 0.4 or not comps:
         return conc(G.gen_ty(rng, spec, rng.randint(0, 1), p_special=0.03, allow_fun=False))
     o = rng.choice(comps)
